@@ -155,10 +155,29 @@ def run(tw, tier, seed, only=None):
             samples.append({"host": gen.graph_desc(h), "pattern": gen.graph_desc(p)})
         if len(fails) > 40:
             break
+    # branched / larger skeletons: stars, branched chains and rings as hosts (alone and next to a second fragment), paths of 2-3 atoms
+    # and two-fragment patterns; degree patterns the small enumeration cannot show
+    def skel(edges, elems):
+        g = nx.Graph()
+        for i, e in enumerate(elems):
+            g.add_node(i, element=e, charge=0, hcount=0)
+        for a, b in edges:
+            g.add_edge(a, b, order=1)
+        return g
+    big_hosts = [skel([(0, 1), (0, 2), (0, 3)], "CCCC"), skel([(0, 1), (0, 2), (0, 3), (0, 4)], "CCCCO"), skel([(0, 1), (1, 2), (1, 3), (3, 4)], "CCCCO"),
+                 skel([(0, 1), (1, 2), (2, 3), (3, 0)], "CCCC"), skel([(0, 1), (1, 2), (2, 3), (3, 4), (4, 0)], "CCCCO"), skel([(0, 1), (1, 2), (2, 3)], "OCCC")]
+    big_patterns = [skel([(0, 1), (1, 2)], "CCC"), skel([(0, 1)], "CC"), skel([(0, 1)], "CO"), skel([(0, 1), (1, 2)], "CCO")]
+    for h0 in big_hosts:
+        for second in (None, big_hosts[5], skel([(0, 1), (1, 2)], "CCO")):
+            h = h0 if second is None else nx.disjoint_union(h0, second)
+            for p0 in big_patterns:
+                for p in (p0, nx.disjoint_union(p0, big_patterns[2])):
+                    cases += 1
+                    nontriv += check_pair(tw, h, p, fails, {"kind": "branched"}, SELECTIONS[0])
     return {"cases": cases, "nontrivial": nontriv, "failures": fails, "samples": samples, "exhaustive": False,
             "evaluations": tw.evaluations,
             "bound": "%d host x pattern pairs from the enumeration of labelled graphs (hosts <= %d atoms, patterns <= %d; 2 elements x 2 orders x hcount 0/1; sampled) "
-                     "incl. disjoint unions; strategies all/comp/bt x max_results None/1/2 x threshold None/0/1/3" % (cases, 3 if tier == "quick" else 4, 2 if tier == "quick" else 3),
+                     "incl. disjoint unions, plus stars / branched chains / rings of 4-5 atoms against 2-3 atom and two-fragment patterns; strategies all/comp/bt x max_results None/1/2 x threshold None/0/1/3" % (cases, 3 if tier == "quick" else 4, 2 if tier == "quick" else 3),
             "rule": "a pair is non-trivial when at least one monomorphism exists"}
 
 
